@@ -160,4 +160,105 @@ theorem update_refines (S : State) (so : Bool) (modes : List Nat) (start : List 
       refine ⟨(k, startOf start k), ⟨?_, hlisted⟩, rfl⟩
       exact h4new k (by simp [hk, hlk])
 
+/-! ### the other direction: nothing else is listening once the update is through -/
+
+theorem lookupKey_of_mem_nodup (l : List (Nat × Server)) (k : Nat) (s : Server)
+    (hm : (k, s) ∈ l) (hn : (l.map (·.1)).Nodup) : lookupKey l k = some s := by
+  induction l with
+  | nil => simp at hm
+  | cons e es ih =>
+    obtain ⟨k', s'⟩ := e
+    simp only [List.map_cons, List.nodup_cons, List.mem_map] at hn
+    simp only [lookupKey]
+    by_cases hk : k' = k
+    · subst hk
+      simp only [beq_self_eq_true, if_true]
+      simp only [List.mem_cons, Prod.mk.injEq] at hm
+      rcases hm with ⟨_, rfl⟩ | hm
+      · rfl
+      · exact absurd ⟨(k', s), hm, rfl⟩ hn.1
+    · have : (k' == k) = false := by simpa using hk
+      simp only [this]
+      simp only [List.mem_cons, Prod.mk.injEq] at hm
+      rcases hm with ⟨rfl, _⟩ | hm
+      · exact absurd rfl hk
+      · exact ih hm hn.2
+
+/-- `started` events add nothing but what was started -/
+theorem after_starts_upper (f : Nat → Server) (ks : List Nat) : ∀ st : LState,
+    ∀ e ∈ (lstateAfter st (ks.map fun k => LEv.started k (f k))).bound,
+      (∃ k ∈ ks, e = (k, f k)) ∨ e ∈ st.bound := by
+  induction ks with
+  | nil => intro st e he; exact Or.inr (by simpa [lstateAfter] using he)
+  | cons k ks ih =>
+    intro st e he
+    simp only [List.map_cons, lstateAfter] at he
+    rcases ih _ e he with ⟨k', hk', rfl⟩ | hb
+    · exact Or.inl ⟨k', List.mem_cons_of_mem _ hk', rfl⟩
+    · simp only [lstep] at hb
+      split at hb
+      · simp only [List.mem_cons, List.mem_filter] at hb
+        rcases hb with rfl | hb
+        · exact Or.inl ⟨k, List.mem_cons_self, rfl⟩
+        · exact Or.inr hb.1
+      · exact Or.inr hb
+
+/-- **nothing else is listening.** With unique keys in `_instances` (it is a dict): once the events of
+    a complete update are through, every socket that is listening belongs to an instance the per-update
+    model predicts. -/
+theorem update_refines_upper (S : State) (so : Bool) (modes : List Nat) (start : List (Nat × Server))
+    (hn : (S.map (·.1)).Nodup) (s : Server)
+    (hs : s ∈ (lstateAfter (settled S) (updateEvents S so modes start)).listening) :
+    s ∈ (update S so modes start).live := by
+  simp only [updateEvents, List.append_assoc, lstateAfter_append, lstateAfter, List.cons_append,
+    List.nil_append] at hs
+  generalize htg : (if so = true then modes else []) = target at hs
+  generalize hst1 : lstep (settled S) (LEv.beginUpdate so modes) = st1 at hs
+  have h1t : st1.target = target := by rw [← hst1, ← htg]; simp [lstep]
+  have h1b : st1.bound = S := by rw [← hst1]; simp [lstep, settled]
+  obtain ⟨_, h2t, h2b⟩ := after_stops ((S.map (·.1)).filter (fun k => !target.contains k)) st1
+  generalize lstateAfter st1 (((S.map (·.1)).filter (fun k => !target.contains k)).map LEv.stopped) = st2
+    at hs h2t h2b
+  generalize hst3 : lstep st2 LEv.stopsDone = st3 at hs
+  have h3b : ∀ e, e ∈ st3.bound → (e ∈ S ∧ target.contains e.1 = true) := by
+    intro e he
+    rw [← hst3] at he
+    simp only [lstep, List.mem_filter, h2t, h1t] at he
+    exact ⟨by have := (h2b e).1 he.1; rw [h1b] at this; exact this.1, he.2⟩
+  simp only [LState.listening, List.mem_map] at hs
+  obtain ⟨e, he, rfl⟩ := hs
+  have hup := after_starts_upper (startOf start) (target.filter (fun k => (lookupKey S k).isNone)) st3 e he
+  cases so with
+  | false =>
+    simp only [Bool.false_eq_true, if_false] at htg
+    subst htg
+    rcases hup with ⟨k, hk, _⟩ | hb
+    · simp at hk
+    · have := (h3b e hb).2
+      simp at this
+  | true =>
+    simp only [if_true] at htg
+    subst htg
+    simp only [update, if_true, State.live, List.map_map, List.mem_map, Function.comp]
+    rcases hup with ⟨k, hk, rfl⟩ | hb
+    · simp only [List.mem_filter, Option.isNone_iff_eq_none] at hk
+      exact ⟨k, hk.1, by simp [hk.2, startOf]⟩
+    · obtain ⟨hmem, hc⟩ := h3b e hb
+      obtain ⟨k, sv⟩ := e
+      have hl := lookupKey_of_mem_nodup S k sv hmem hn
+      exact ⟨k, by simpa using hc, by simp [hl]⟩
+
+/-- the keys of the per-update state are exactly the configured modes: unique when the modes are -/
+theorem update_keys (S : State) (so : Bool) (modes : List Nat) (start : List (Nat × Server)) :
+    (update S so modes start).map (·.1) = if so then modes else [] := by
+  cases so with
+  | false => simp [update]
+  | true =>
+    simp only [update, if_true, List.map_map]
+    conv => rhs; rw [← List.map_id modes]
+    apply List.map_congr_left
+    intro k _
+    simp only [Function.comp]
+    cases lookupKey S k <;> rfl
+
 end MitmVerif.Lemmas.C23
